@@ -24,6 +24,10 @@ def c03 (toks : List String) : Option String :=
       match sparseDecompress b e with
       | some out => pure (hexOrDash out)
       | none => pure "err"
+  | ["c03sparsec", h] => do
+      let d ← bytesOfHex h
+      let enc := sparseCompress d
+      pure (if 1 + enc.length ≥ d.length then "raw" else hexOfBytes enc)
   | ["c03sel", f] => do pure (if selectorSupported (← f.toNat?) then "ok" else "unsupported")
   | _ => none
 
